@@ -1,5 +1,6 @@
 import BM.Proofs.Step
 import BM.Proofs.Escape
+import BM.Proofs.RoundTrip
 /-
   C06: text is preserved exactly and always emitted escaped.  Proved (event level, all
   policies with AllowUnsafe off, all token sequences):
@@ -51,7 +52,7 @@ theorem non_text_writes_are_markup (p : Policy) (hs : p.addSpaces = false) (hu :
   | rawText _ h _ => simp [hu] at h
 
 example :
-    let p : Policy := { elsAndAttrs := [(b!"b", [])], setOfElementsAllowedWithoutAttrs := [b!"b"] }
+    let p : Policy := { initialized := true, elsAndAttrs := [(b!"b", [])], setOfElementsAllowedWithoutAttrs := [b!"b"] }
     p.sanitizeCore b!"a &amp; b <i>&lt;c&gt;</i> \"q\" <b>'s'\r</b>" =
       b!"a &amp; b &lt;c&gt; &#34;q&#34; <b>&#39;s&#39;\n</b>" := by decide
 
